@@ -1253,7 +1253,13 @@ MANIFEST = {
             "under the triangle inequality, isSatisfied <-> better-than-threshold), tied to the code by lock-step differential runs "
             "through the real ProblemDefinition and bit-exact comparison of cost()/length() per shipped objective; plus a per-run "
             "oracle over real runs of the 20 optimizing planners (stored vs recomputed cost, admissible bound, optimized flag, "
-            "monotone best cost, order without inversion) - this last part is trace conformance on sampled runs.",
+            "monotone best cost, order without inversion) - this last part is trace conformance on sampled runs. Second engine: "
+            "geometric::RRTstar with default settings inside the model (k-nearest, delayed collision checking, rewiring with "
+            "updateChildCosts, incumbent and approximate-solution bookkeeping, libstdc++ std::sort ported for exact tie order), "
+            "proved for every history of loop passes / interruptions / continued solves: cost invariant, tree invariant "
+            "(children lists = inverse parent pointers, acyclic, fuel suffices), stored cost = fold of the reported path, "
+            "bestCost_ monotone, flag as coded; bit-for-bit lock-step of the whole tree against the real planner (recording "
+            "sampler / validator, twin RNG), incl. scripted collinear dyadic inputs with exactly cost-equal candidates.",
     "note": "Trusted: Lean kernel, the three standard axioms, the hand-written model outside the scripts the correspondence explored, "
             "the harness, the Python oracle. Part C is sampled (planners x objectives x environments x seeds listed in the evidence); "
             "mixed objective/no-objective solution sets are the recorded finding F11; IEEE rounding is executed, not verified.",
